@@ -204,6 +204,14 @@ impl ZerokitMerkleTree for PmTree {
         values: I,
     ) -> Result<()> {
         let v = values.into_iter().collect::<Vec<_>>();
+        // An empty range writes nothing; pmtree's batch insertion would index into the empty batch
+        if v.is_empty() {
+            return if start > self.capacity() {
+                Err(Report::msg("provided leaves do not fit in the tree"))
+            } else {
+                Ok(())
+            };
+        }
         self.tree
             .set_range(start, v.clone().into_iter())
             .map_err(|e| Report::msg(e.to_string()))?;
